@@ -37,7 +37,7 @@ Qed.
 
 Definition method_ranges : list (N * N) :=
   [(33,33); (35,39); (42,43); (45,46); (48,57); (65,90); (94,96); (124,124); (126,126)].
-Definition target_ranges : list (N * N) := [(0,9); (11,12); (14,31); (33,255)].
+Definition target_ranges : list (N * N) := [(33,126); (128,255)].
 Definition tchar_ranges' : list (N * N) :=
   [(33,33); (35,35); (36,36); (37,37); (38,38); (39,39); (42,42); (43,43);
    (45,45); (46,46); (94,94); (95,95); (96,96); (124,124); (126,126);
@@ -50,9 +50,9 @@ Proof.
 Qed.
 
 Lemma target_ranges_ok x : x < 256 ->
-  in_ranges x target_ranges = negb ((x =? 32) || (x =? 13) || (x =? 10)).
+  in_ranges x target_ranges = target_byte x.
 Proof.
-  apply (byte_table (fun x => in_ranges x target_ranges) (fun x => negb ((x =? 32) || (x =? 13) || (x =? 10)))).
+  apply (byte_table (fun x => in_ranges x target_ranges) target_byte).
   vm_compute. reflexivity.
 Qed.
 
@@ -71,11 +71,11 @@ Proof.
   destruct (x =? 32) eqn:E; auto. apply N.eqb_eq in E. subst. vm_compute in H. discriminate.
 Qed.
 
-Lemma no_sp_target t : forallb (fun x => negb ((x =? 32) || (x =? 13) || (x =? 10))) t = true ->
+Lemma no_sp_target t : forallb target_byte t = true ->
   forallb (fun x => negb (x =? 32)) t = true.
 Proof.
   intro H. rewrite forallb_forall in *. intros x Hx. specialize (H x Hx).
-  destruct (x =? 32); auto.
+  destruct (x =? 32) eqn:E; auto. apply N.eqb_eq in E. subst. vm_compute in H. discriminate.
 Qed.
 
 (* ---------------------------------------------------------------- *)
